@@ -480,6 +480,38 @@ func c05Feature(w *core.W, j int) {
 			c05Both(w, r, "/"+field+"/"+ft.name)
 		}
 	}
+	// LOC: values around every point where the text form changes shape (sign of the altitude, hemisphere,
+	// whole degrees/minutes/seconds, every size/precision mantissa and exponent)
+	if l.Type == 29 {
+		setv := func(r *model.Rec, name string, v uint64) {
+			if i := l.FieldIndex(name); i >= 0 {
+				r.Vals[i] = v
+			}
+		}
+		for _, d := range []int64{-100000, -10001, -10000, -9999, -201, -200, -199, -101, -100, -99, -51, -50, -49, -2, -1, 0, 1, 2, 49, 50, 51, 99, 100, 101, 199, 200, 10000, 4284967295 - 10000000} {
+			r := c05Base(g, l)
+			setv(r, "Altitude", uint64(10000000+d))
+			c05Both(w, r, "/Altitude/around-zero")
+		}
+		for _, d := range []int64{-324000000, -3600001, -3600000, -3599999, -60001, -60000, -59999, -1001, -1000, -999, -1, 0, 1, 999, 1000, 1001, 59999, 60000, 60001, 3599999, 3600000, 3600001, 324000000} {
+			r := c05Base(g, l)
+			setv(r, "Latitude", uint64(int64(1)<<31+d))
+			c05Both(w, r, "/Latitude/around-equator")
+			r2 := c05Base(g, l)
+			setv(r2, "Longitude", uint64(int64(1)<<31+2*d))
+			c05Both(w, r2, "/Longitude/around-meridian")
+		}
+		for m := 0; m <= 9; m++ {
+			for e := 0; e <= 9; e++ {
+				if m == 0 && e > 0 {
+					continue // 0 x 10^e: zero written with a spare exponent has no text form of its own
+				}
+				r := c05Base(g, l)
+				setv(r, []string{"Size", "HorizPre", "VertPre"}[(m+e)%3], uint64(m<<4|e))
+				c05Both(w, r, "/precision/mantissa-exponent")
+			}
+		}
+	}
 	// names of the maximum length (255 octets on the wire): every octet escaped as \DDD (the longest
 	// possible text, 1004 characters), every octet a plain letter, and one octet short of the limit
 	for _, mn := range c05MaxNames() {
@@ -776,6 +808,11 @@ func c05Generic(w *core.W, j int) {
 			r.Vals[0] = []byte{}
 		}
 		r.Fixup()
+		if t == 4711 && j%8 == 0 {
+			r.Vals[0] = bytes.Repeat([]byte{0xA5, byte(j)}, []int{32767, 32768, 40000, 65535}[j/8%4])[:[]int{32767, 32768, 40000, 65535}[j/8%4]]
+			r.Fixup()
+			w.Count("generic_forms_over_32767_octets", 1)
+		}
 		w.Cover("type", "TYPE"+fmt.Sprint(t))
 		c05Both(w, r, "/unknown-type")
 		rd, _ := r.Rdata()
